@@ -536,6 +536,13 @@ impl<T: Copy + Debug> Container<T> {
         let on_success = |_owner_id, index| {
             let v = current_element_generation_count.get();
 
+            // The dead owner may have died in `Self::add()` after the index was acquired but
+            // before the element was marked as containing data. The element is then already
+            // empty and incrementing the counter would mark it as containing data.
+            if !Self::contains_data(v) {
+                return;
+            }
+
             // Race against: `Self::add()`
             // * index is already released and could be acquired by `Self::add()`
             // * `Self::add()` increments counter to % 2 == 1 when finished populating data
